@@ -43,14 +43,18 @@ TIERS = {
         "cfg": "MC_Shapes_quick.cfg",
         "cyc_per_op": {"create": 200, "send": 50, "collect": 60, "drop": 200,
                        "write": 90, "display": 90, "hashkey": 40, "hashset": 30,
-                       "equal": 400, "hashfind": 20},
+                       "equal": 400, "hashfind": 20,
+                       "twin:equal": 400, "twin:hashfind": 20, "twin:hashmember": 20, "twin:hashcode": 15},
         "cyc_timeout_ms": 2500, "deep_small_timeout_ms": 10000, "deep_timeout_ms": 20000, "deep_big_timeout_ms": 60000,
     },
     "thorough": {
         "cfg": "MC_Shapes_thorough.cfg",
         "cyc_per_op": {"create": 3000, "send": 600, "collect": 500, "drop": 3000,
                        "write": 1200, "display": 1200, "hashkey": 600, "hashset": 300,
-                       "equal": 8000, "hashfind": 200},
+                       "equal": 8000, "hashfind": 200,
+                       # every twin / near-twin pair; the hash operations on them are sampled (on the unchanged
+                       # tree each one on a cyclic value costs a dead process, finding C18-hash-of-cyclic-...)
+                       "twin:equal": 10 ** 9, "twin:hashfind": 300, "twin:hashmember": 300, "twin:hashcode": 300},
         "cyc_timeout_ms": 2500, "deep_small_timeout_ms": 20000, "deep_timeout_ms": 60000, "deep_big_timeout_ms": 120000,
     },
 }
@@ -133,14 +137,16 @@ def select_cyc(cases, per_op, seed):
     rnd = random.Random(seed)
     by_op = {}
     for c in cases:
-        by_op.setdefault(c["meta"]["op"], []).append(c)
+        # the pair operations of family "twin" (value built twice / near-twin) have budgets of their own
+        key = "twin:" + c["meta"]["op"] if tagval(c["tag"], "tw") else c["meta"]["op"]
+        by_op.setdefault(key, []).append(c)
     out = []
     for op in sorted(by_op):
         strata = {}
         for c in sorted(by_op[op], key=lambda c: c["id"]):
             t = c["tag"]
             key = (tagval(t, "root"), tagval(t, "cyc"), tagval(t, "reach"), tagval(t, "shared"), tagval(t, "bisim"),
-                   tagval(t, "asis"))
+                   tagval(t, "asis"), tagval(t, "tw"))
             strata.setdefault(key, []).append(c)
         keys = sorted(strata)
         for k in keys:
@@ -350,7 +356,7 @@ def run(tier, seed):
     if os.environ.get("C18_ALL"):
         per_op = {k: 10 ** 9 for k in per_op}
     if os.environ.get("C18_OPS"):
-        per_op = {k: v for k, v in per_op.items() if k in os.environ["C18_OPS"].split(",")}
+        per_op = {k: v for k, v in per_op.items() if k.split(":")[-1] in os.environ["C18_OPS"].split(",")}
     if os.environ.get("C18_TAGRE"):
         cyc = [c for c in cyc if re.search(os.environ["C18_TAGRE"], c["tag"])]
     sel = select_cyc(cyc, per_op, seed)
